@@ -19,6 +19,9 @@ pub struct Counting {
     pub over: Rc<Cell<u64>>,
     /// at most this many bytes are served per read call (a small BufReader-like source)
     pub max_read: usize,
+    /// read calls so far; the call with this number fails, once, with an injected I/O error
+    pub reads: Rc<Cell<u64>>,
+    pub fail_read: Rc<Cell<Option<u64>>>,
     frame_left: u64,
 }
 impl Counting {
@@ -30,6 +33,8 @@ impl Counting {
             lowest: Rc::new(Cell::new(u64::MAX)),
             over: Rc::new(Cell::new(0)),
             max_read: usize::MAX,
+            reads: Rc::new(Cell::new(0)),
+            fail_read: Rc::new(Cell::new(None)),
             frame_left: u64::MAX,
         }
     }
@@ -39,6 +44,12 @@ impl Counting {
 }
 impl Read for Counting {
     fn read(&mut self, buf: &mut [u8]) -> io::Result<usize> {
+        let r = self.reads.get();
+        self.reads.set(r + 1);
+        if self.fail_read.get() == Some(r) {
+            self.fail_read.set(None);
+            return Err(io::Error::new(io::ErrorKind::Other, "injected fault"));
+        }
         let pos = self.inner.position() as usize;
         let data = self.inner.get_ref();
         let n = buf.len().min(data.len().saturating_sub(pos)).min(self.max_read);
@@ -227,12 +238,19 @@ pub fn run_history_on<R: Read + Seek + Clone>(src: R, ops: &[(usize, Op)]) -> Re
 
 /// Runs a history on the real cursor(s); one output line per operation.
 pub fn run_history(file: &[u8], ops: &[(usize, Op)], with_fp: bool) -> Result<Vec<String>, String> {
+    run_history_fault(file, ops, with_fp, None).map(|(l, _)| l)
+}
+
+/// `fault`: the read call (counted after open) that fails once with an injected I/O error; the history
+/// goes on after the failed operation.  Also returns the number of read calls made after open.
+pub fn run_history_fault(file: &[u8], ops: &[(usize, Op)], with_fp: bool, fault: Option<u64>) -> Result<(Vec<String>, u64), String> {
     // every third file is served by a source returning at most 7 bytes per read call
     let src = if fnv(file) % 3 == 0 { Counting::short(file.to_vec(), 7) } else { Counting::new(file.to_vec()) };
     let seeks = src.seeks.clone();
     let bytes = src.bytes.clone();
     let lowest = src.lowest.clone();
     let over = src.over.clone();
+    let (reads, fail_read) = (src.reads.clone(), src.fail_read.clone());
     let reader = match catch(|| Reader::new(src)) {
         Ok(Ok(r)) => r,
         Ok(Err(e)) => return Err(format!("open err {}", err_class(&e))),
@@ -251,6 +269,10 @@ pub fn run_history(file: &[u8], ops: &[(usize, Op)], with_fp: bool) -> Result<Ve
     let mut cursors: Vec<Option<ReaderCursor<Counting>>> = vec![Some(reader.into_cursor().map_err(|e| err_class(&e))?)];
     let mut lines = Vec::new();
     let mut dead = false;
+    let reads_at_open = reads.get();
+    if let Some(k) = fault {
+        fail_read.set(Some(reads_at_open + k));
+    }
     for (cid, op) in ops {
         let opname = match op {
             Op::First => "first -".to_string(),
@@ -329,6 +351,10 @@ pub fn run_history(file: &[u8], ops: &[(usize, Op)], with_fp: bool) -> Result<Ve
         match res {
             Ok(Ok(Some((k, v)))) => lines.push(format!("o {} {} = S {} {} {} {}", cid, opname, hex(&k), hex(&v), loads, fp)),
             Ok(Ok(None)) => lines.push(format!("o {} {} = N {} {}", cid, opname, loads, fp)),
+            Ok(Err(e)) if fault.is_some() && e == "io7" => {
+                // the injected failure surfaced as the I/O error: the history goes on with this cursor
+                lines.push(format!("o {} {} = F", cid, opname));
+            }
             Ok(Err(e)) => {
                 lines.push(format!("o {} {} = E {} {}", cid, opname, e, loads));
                 dead = true;
@@ -339,7 +365,7 @@ pub fn run_history(file: &[u8], ops: &[(usize, Op)], with_fp: bool) -> Result<Ve
             }
         }
     }
-    Ok(lines)
+    Ok((lines, reads.get() - reads_at_open))
 }
 
 /// position exactly on the stored key k, issue an absolute seek that finds nothing (beyond the last key,
@@ -501,12 +527,28 @@ pub fn to_v1(file: &[u8]) -> Vec<u8> {
 }
 
 pub fn emit_hist<W: Write>(c: &mut Cases<W>, cfg: &FileCfg, es: &[(Vec<u8>, Vec<u8>)], file: &[u8], ops: &[(usize, Op)], with_fp: bool) {
+    emit_hist_fault(c, cfg, es, file, ops, with_fp, None)
+}
+
+/// `fault`: Some(x) = one read call of the history, chosen by x among those a fault-free run makes, fails once
+pub fn emit_hist_fault<W: Write>(c: &mut Cases<W>, cfg: &FileCfg, es: &[(Vec<u8>, Vec<u8>)], file: &[u8], ops: &[(usize, Op)], with_fp: bool, fault: Option<u64>) {
+    let fault = match fault {
+        None => None,
+        Some(x) => match run_history_fault(file, ops, false, None) {
+            Ok((_, n)) if n > 0 => Some(x % n),
+            _ => return,
+        },
+    };
     c.begin("hist");
     c.line(&format!("prop {}", c.prop.clone()));
     if let Some(t) = c.pending_tag.take() {
         c.line(&t);
     }
     c.line(&cfg.line());
+    if let Some(k) = fault {
+        c.line(&format!("fault read {}", k));
+        c.bump("histories.with_transient_read_failure", 1);
+    }
     c.line(&format!("file {}", hex(file)));
     ztable_body(c, cfg.codec, file);
     for (k, v) in es {
@@ -526,7 +568,7 @@ pub fn emit_hist<W: Write>(c: &mut Cases<W>, cfg: &FileCfg, es: &[(Vec<u8>, Vec<
         Ok(Err(e)) => c.line(&format!("meta err {} -", err_class(&e))),
         Err(_) => c.line("meta panic - -"),
     }
-    match run_history(file, ops, with_fp) {
+    match run_history_fault(file, ops, with_fp && fault.is_none(), fault).map(|(l, _)| l) {
         Ok(lines) => {
             let mut h = fnv(file);
             for l in &lines {
@@ -678,6 +720,11 @@ pub fn generate<W: Write>(c: &mut Cases<W>, rng: &mut Rng, thorough: bool, which
             }
         } else {
             emit_hist(c, &cfg, &es, &file, &ops, which == "C03");
+            if which == "C03" && i % 2 == 0 {
+                // the same history with one read call failing once: the failed operation returns the I/O
+                // error, and the absolute moves that follow are as unaffected by it as by anything else
+                emit_hist_fault(c, &cfg, &es, &file, &ops, false, Some(rng.next()));
+            }
             if which == "C16" && cfg.levels == 0 {
                 // the version-1 twin: its trailer is 21 bytes, opening must not read below it
                 c.bump("files.v1_twin", 1);
@@ -716,6 +763,55 @@ macro_rules! run_iter {
             n += 1;
             it.next().map(|o| o.map(|(k, v)| (k.to_vec(), v.to_vec()))).map_err(|e| err_class(&e))
         })
+    }};
+}
+
+/// A handle on a file whose position is shared with the other handles (two readers over one `&File`, or
+/// over clones of one descriptor): every user must seek before it reads.
+#[derive(Clone)]
+pub struct SharedSrc(pub Rc<std::cell::RefCell<Cursor<Vec<u8>>>>);
+impl Read for SharedSrc {
+    fn read(&mut self, buf: &mut [u8]) -> io::Result<usize> {
+        self.0.borrow_mut().read(buf)
+    }
+}
+impl Seek for SharedSrc {
+    fn seek(&mut self, pos: SeekFrom) -> io::Result<u64> {
+        self.0.borrow_mut().seek(pos)
+    }
+}
+
+/// two iterators of the same query over two readers sharing one file position, stepped alternately: both
+/// must yield what a lone iterator yields
+macro_rules! run_pair {
+    ($mk:expr) => {{
+        let mut a = $mk;
+        let mut b = $mk;
+        let (mut ra, mut rb) = (Vec::new(), Vec::new());
+        let (mut da, mut db) = (false, false);
+        let r = catch(|| -> Result<(), String> {
+            while !(da && db) {
+                if !da {
+                    match a.next().map_err(|e| err_class(&e))? { Some((k, v)) => ra.push((k.to_vec(), v.to_vec())), None => da = true }
+                }
+                if !db {
+                    match b.next().map_err(|e| err_class(&e))? { Some((k, v)) => rb.push((k.to_vec(), v.to_vec())), None => db = true }
+                }
+                if ra.len() > 1_000_000 { return Err("runaway".into()); }
+            }
+            Ok(())
+        });
+        let fmt = |items: &Vec<(Vec<u8>, Vec<u8>)>| {
+            let (n, h) = entries_hash(items.iter().map(|(k, v)| (&k[..], &v[..])));
+            let first = items.first().map(|(k, _)| hex(k)).unwrap_or("-".into());
+            let last = items.last().map(|(k, _)| hex(k)).unwrap_or("-".into());
+            format!("{} {:016x} {} {}", n, h, first, last)
+        };
+        match r {
+            Ok(Ok(())) => if ra == rb { fmt(&ra) } else { format!("sharedpos-differ {} {}", fmt(&ra).replace(' ', "_"), fmt(&rb).replace(' ', "_")) },
+            Ok(Err(e)) => format!("err {} - -", e),
+            Err(_) => "panic - - -".to_string(),
+        }
     }};
 }
 
@@ -793,7 +889,15 @@ pub fn generate_iter<W: Write>(c: &mut Cases<W>, rng: &mut Rng, thorough: bool, 
                 if clone_after.is_some() {
                     c.bump("iter.cloned_midway", 1);
                 }
-                let res = if rev {
+                let res = if j % 6 == 0 {
+                    c.bump("iter.shared_position_pairs", 1);
+                    let shared = SharedSrc(Rc::new(std::cell::RefCell::new(Cursor::new(file.clone()))));
+                    if rev {
+                        run_pair!(Reader::new(shared.clone()).unwrap().into_rev_range_iter((lo.clone(), hi.clone())).unwrap())
+                    } else {
+                        run_pair!(Reader::new(shared.clone()).unwrap().into_range_iter((lo.clone(), hi.clone())).unwrap())
+                    }
+                } else if rev {
                     run_iter!(Reader::new(mk_src(&file)).unwrap().into_rev_range_iter((lo.clone(), hi.clone())).unwrap(), clone_after)
                 } else {
                     run_iter!(Reader::new(mk_src(&file)).unwrap().into_range_iter((lo.clone(), hi.clone())).unwrap(), clone_after)
@@ -821,7 +925,16 @@ pub fn generate_iter<W: Write>(c: &mut Cases<W>, rng: &mut Rng, thorough: bool, 
                 if clone_after.is_some() {
                     c.bump("iter.cloned_midway", 1);
                 }
-                let res = if rev {
+                let res = if j % 6 == 0 {
+                    // two readers over one shared file position, stepped alternately
+                    c.bump("iter.shared_position_pairs", 1);
+                    let shared = SharedSrc(Rc::new(std::cell::RefCell::new(Cursor::new(file.clone()))));
+                    if rev {
+                        run_pair!(Reader::new(shared.clone()).unwrap().into_rev_prefix_iter(p.clone()).unwrap())
+                    } else {
+                        run_pair!(Reader::new(shared.clone()).unwrap().into_prefix_iter(p.clone()).unwrap())
+                    }
+                } else if rev {
                     run_iter!(Reader::new(mk_src(&file)).unwrap().into_rev_prefix_iter(p.clone()).unwrap(), clone_after)
                 } else {
                     run_iter!(Reader::new(mk_src(&file)).unwrap().into_prefix_iter(p.clone()).unwrap(), clone_after)
